@@ -165,6 +165,12 @@ func (g *Gun) shootStep(step *Call, sample *netsample.Sample, ammoName string, t
 	stepVars["preprocessor"] = preprocVars
 
 	// Template
+	// Templater renders metadata in place, but metadata map is shared by all instances: render a copy.
+	metadataCopy := make(map[string]string, len(step.Metadata))
+	for k, v := range step.Metadata {
+		metadataCopy[k] = v
+	}
+	step.Metadata = metadataCopy
 	payloadJSON, err := g.templ.Apply(step.Payload, step.Metadata, templateVars, ammoName, step.Name)
 	if err != nil {
 		return fmt.Errorf("%s templater.Apply %w", op, err)
